@@ -65,6 +65,16 @@ CHECKS["C10"] = dict(level="model_checking", engine="E3+E1", ref="5/C10",
    technique="bounded-exhaustive enumeration of all lease files up to 3/4 lines against a reference parser + explicit-state BFS to fixpoint of the autorefresh event graph (reload = real watcher-loop body) + dual-stack configurations",
    text="All lease files of 0..3 (thorough 0..4) lines over a 16-line alphabet, both protocols: Setup must err exactly when the reference parser rejects, and every probe MAC is looked up through the real handlers (v6 client identification by DUID-LL, DUID-LLT, RFC 6939 relay option and EUI-64 peer, with and without IA_NA). The autorefresh graph {write good1/good2/bad/empty/wrong-family, reload} is explored to fixpoint with the invariant 'served mapping = last well-formed content reloaded'. Dual-stack: both setup orders with a v6 reload. Thorough adds a binding run with the real fsnotify watcher.",
    note="inotify delivery is not modelled (reload events are explicit; one binding run with the real watcher, inconclusive on timeout). Known finding: dual-stack shares one table (known_findings.json).")
+
+PD_NOTE = "Handler instance found through hook H4 (capture on entry); state key from the hook dump; verdicts only from reply bytes (independent parser) and the hook's record dump for the 'remembered' clause. The plugin has no expiry, so histories are monotone and the fixpoint is real."
+CHECKS["C08"] = dict(level="model_checking", engine="E1", ref="5/C08",
+   technique="explicit-state BFS to fixpoint over the real prefix-delegation handler (every transition = one wire-format message handled by the real code), ghost of prefixes told per client as oracle",
+   text="Complete reachable state graph of the prefix plugin for 2 clients (thorough: 3) on pools of 2-4 blocks under a message alphabet covering every hint shape of the property (none, ::/0, length-only, own, other client's, free, longer than the allocation size, out-of-pool, several hints, several IA_PDs, relayed, no client-id); on every transition each delegated prefix is checked for pool membership, alignment, size, lifetimes and disjointness from every other client's holdings, and IA_PD/IAID correspondence with NoPrefixAvail on exhaustion.",
+   note=PD_NOTE)
+CHECKS["C09"] = dict(level="model_checking", engine="E1", ref="5/C09",
+   technique="explicit-state BFS to fixpoint over the real prefix-delegation handler; per-transition oracle on renewals/repeats against the ghost of what each client was told",
+   text="Same graph as C08; on every transition from a state where the client holds prefixes: an IA_PD naming exactly a held prefix must return it, a hint-less IA_PD must return the held prefixes and nothing new, such repeats must not change the number of allocated blocks, lifetimes must not shrink (one-sided clock comparison), and every prefix delegated in a reply must be in the server's record for that client.",
+   note=PD_NOTE)
 ALL = ["C%02d" % i for i in range(1, 21)]
 NA_REASON = "check not built yet in this session (planned, see DESIGN.md section 5); will be claimed once its machinery exists"
 m = {
@@ -78,7 +88,7 @@ m = {
   "add_only": True,
  },
  "engines": [
-  {"name": "E1 explicit-state BFS over real handlers", "path": "mc/explore", "serves_properties": ["C04","C05","C06","C07","C10"], "kind_free_text": "explicit-state model checking where every transition is an execution of the real code on a fresh instance (replay of the shortest path + 1 op); state key = hook dump + observer ghost"},
+  {"name": "E1 explicit-state BFS over real handlers", "path": "mc/explore", "serves_properties": ["C04","C05","C06","C07","C08","C09","C10"], "kind_free_text": "explicit-state model checking where every transition is an execution of the real code on a fresh instance (replay of the shortest path + 1 op); state key = hook dump + observer ghost"},
   {"name": "E2 cooperative scheduler + preemption-bounded DFS", "path": "mc/sched + mc/verifsched + mc/cmd/instr", "serves_properties": [], "kind_free_text": "stateless model checking of the implementation: sync replaced by a shim through go build -overlay, Yield() injected before every statement, all schedules up to a preemption bound"},
   {"name": "E3 bounded-exhaustive enumerator vs reference model", "path": "mc/checks/*", "serves_properties": ["C10","C11","C12","C13","C14","C15","C17","C18","C19","C20"], "kind_free_text": "complete cross product of small per-dimension alphabets executed on the real code and compared with a reference written from the property text"},
  ],
